@@ -1138,6 +1138,7 @@ fn bags_at_end(r: &LcRun) -> Option<Verdict> {
 /// for runs that start from an empty table (the counter is per run).  Indices are positive, the index of a lifecycle never
 /// decreases, and an entry that is new or whose content changed carries an index above every index visible at an earlier
 /// instant (two refreshes that publish different content never carry the same index).
+#[allow(dead_code)]
 pub fn refresh_index_verdict(r: &LcRun) -> Option<Verdict> {
     let mut idx_of: std::collections::BTreeMap<u32, u32> = Default::default();
     let mut content_of: std::collections::BTreeMap<u32, &(u8, u32, u64, u64, bool, u32, Option<String>)> = Default::default();
@@ -1245,13 +1246,15 @@ pub fn oracle_c07(pre: &[MSpec], msgs: &[MSpec], r: &LcRun) -> Verdict {
     if let Some(v) = stage_verdict(msgs.len(), r) {
         return v;
     }
-    if let Some(v) = bags_at_end(r).or_else(|| bags_at_deliveries(r)) {
+    // C07 talks about the table once the stream has been fully processed: a key without a value at the end is a listed
+    // invalidated lifecycle.  The state of the table at the deliveries is C06's clause (`published_key_single_value`), and the
+    // per-refresh index (`refresh_index_verdict`) is an implementation detail of the incremental protocol between the lifecycle
+    // stage and remote.rs: what must hold of it is decided behaviourally by C13's follower oracle, not here (a different but
+    // consistent index scheme must not alarm C07).
+    if let Some(v) = bags_at_end(r) {
         return v;
     }
     if pre.is_empty() {
-        if let Some(v) = refresh_index_verdict(r) {
-            return v;
-        }
         let mut sum = 0u64;
         for row in r.table.iter() {
             let cnt = r.deliveries.iter().filter(|d| d.lc == row.id).count() as u64;
